@@ -11,15 +11,16 @@ output-MMR position of a spent coinbase against `output_mmr_size` of the header 
 `next - maturity` in the header MMR - the header MMR of `header_head` while the body head is on
 it, else the header MMR rewound to the body head.
 
-* `pool_maturity_fixed_on_competing_fork` — full strength, no side condition on the header chain:
-  whenever the body head is NOT on the header chain (any competing header fork: any fork point,
-  any length, any number of outputs in its blocks, shorter or longer than the cutoff height), the
-  check returns exactly the height-based specification `txMaturity` of the body head's state.
-* `pool_maturity_fixed_agrees_partial` — both branches; in the branch "body head on the header
-  chain" the proof uses that a header chain which contains the body head at the head's height
-  also contains the head's ancestors below it (`htree`; true of every parent-linked store, not yet
-  derived from `Node.path` here — that is what is missing for the unconditional statement
-      ∀ history, (run p n es).poolMaturityFixed p t = txMaturity p s t).
+* `pool_maturity_fixed_agrees` / `pool_maturity_fixed_after_any_history` — full strength: for
+  every node reached by any history of blocks and headers in any order (any header chain: the
+  body chain, an extension of it, or a competing fork of any fork point, length, work and number
+  of outputs per block, shorter or longer than the cutoff height) the check returns exactly the
+  height-based specification `txMaturity` of the body head's state, for every transaction.
+* `pool_maturity_fixed_on_competing_fork` — the branch the repair added, on its own.
+* `pool_maturity_fixed_agrees_partial` — both branches with the tree property as a hypothesis;
+  `header_chain_through_head` (from `isPath_of_path`, `isPath_prefix`, `isPath_unique`) proves that
+  property: a header chain which holds the body head at the head's height holds the head's
+  ancestors below it.
 * `pool_maturity_fixed_body_only` — two nodes with the same blocks and the same body head answer
   alike, whatever their header heads.
 * witnesses: the two nodes of `Lemmas/ChainPoolExamples.lean` on which the unrepaired check went
@@ -97,6 +98,137 @@ theorem pool_maturity_fixed_agrees_partial (p : Params) (N n : Node) (hb : N.blk
       exact bodyPath_check_eq p N n hb g rest s H hg0 hm (g :: rest) t
         (fun _ => ⟨by simp only [List.length_cons]; omega, rfl⟩)
 
+/-! ### the tree: a header chain that holds the body head holds the head's ancestors below it -/
+
+theorem blk_id {n : Node} {id : Nat} {b : Blk} (h : n.blk id = some b) : b.id = id := by
+  unfold Node.blk at h
+  have := List.find?_some h
+  simpa using this
+
+/-- what `pathTo` returns is a parent-linked path put in front of the accumulator -/
+theorem isPath_of_pathTo {n : Node} : ∀ (fuel id : Nat) (acc r : List Blk),
+    pathTo n fuel id acc = some r → ∃ l, r = l ++ acc ∧ IsPath n id l := by
+  intro fuel
+  induction fuel with
+  | zero => intro id acc r h; simp [pathTo] at h
+  | succ k ih =>
+    intro id acc r h
+    simp only [pathTo] at h
+    cases hb : n.blk id with
+    | none => rw [hb] at h; simp at h
+    | some b =>
+      rw [hb] at h
+      simp only at h
+      cases hp : b.parent with
+      | none =>
+        rw [hp] at h
+        simp only [Option.some.injEq] at h
+        exact ⟨[b], by rw [← h]; rfl, IsPath.root id b hb hp⟩
+      | some par =>
+        rw [hp] at h
+        simp only at h
+        obtain ⟨l, hl, hpath⟩ := ih par (b :: acc) r h
+        exact ⟨l ++ [b], by rw [hl]; simp, IsPath.child id b par l hb hp hpath⟩
+
+theorem isPath_of_path {n : Node} {id : Nat} {l : List Blk} (h : n.path id = some l) : IsPath n id l := by
+  obtain ⟨l', hl, hp⟩ := isPath_of_pathTo _ id [] l h
+  simp only [List.append_nil] at hl
+  rw [hl]; exact hp
+
+/-- a block has one path -/
+theorem isPath_unique {n : Node} {id : Nat} {l₁ l₂ : List Blk} (h₁ : IsPath n id l₁)
+    (h₂ : IsPath n id l₂) : l₁ = l₂ := by
+  induction h₁ generalizing l₂ with
+  | root id b hb hp =>
+    cases h₂ with
+    | root _ b' hb' hp' =>
+      rw [hb] at hb'; cases hb'; rfl
+    | child _ b' par l hb' hp' hl =>
+      rw [hb] at hb'; cases hb'
+      rw [hp] at hp'; cases hp'
+  | child id b par l hb hp hl ih =>
+    cases h₂ with
+    | root _ b' hb' hp' =>
+      rw [hb] at hb'; cases hb'
+      rw [hp] at hp'; cases hp'
+    | child _ b' par' l' hb' hp' hl' =>
+      rw [hb] at hb'; cases hb'
+      rw [hp] at hp'; cases hp'
+      rw [ih hl']
+
+/-- every non-empty prefix of a path is the path of its last block -/
+theorem isPath_prefix {n : Node} {id : Nat} {l : List Blk} (h : IsPath n id l) :
+    ∀ k b, l[k]? = some b → IsPath n b.id (l.take (k + 1)) := by
+  induction h with
+  | root id b hb hp =>
+    intro k x hk
+    cases k with
+    | zero =>
+      simp only [List.getElem?_cons_zero, Option.some.injEq] at hk
+      subst hk
+      rw [blk_id hb]
+      exact IsPath.root id b hb hp
+    | succ j => simp at hk
+  | child id b par l hb hp hl ih =>
+    intro k x hk
+    by_cases hlt : k < l.length
+    · rw [List.getElem?_append_left hlt] at hk
+      have := ih k x hk
+      rw [List.take_append_of_le_length (by omega)]
+      exact this
+    · have hkl : k = l.length := by
+        have hlen : k < (l ++ [b]).length := by
+          rcases List.getElem?_eq_some_iff.mp hk with ⟨h, _⟩
+          exact h
+        simp only [List.length_append, List.length_cons, List.length_nil] at hlen
+        omega
+      subst hkl
+      simp only [List.getElem?_concat_length, Option.some.injEq] at hk
+      subst hk
+      rw [blk_id hb]
+      have : (l ++ [b]).take (l.length + 1) = l ++ [b] := by
+        apply List.take_of_length_le; simp
+      rw [this]
+      exact IsPath.child id b par l hb hp hl
+
+/-- **the tree property** used by `pool_maturity_fixed_agrees_partial` -/
+theorem header_chain_through_head {n : Node} {head : Nat} {P hpath : List Blk} {hhead : Nat}
+    (hP : IsPath n head P) (hH : n.path hhead = some hpath) (b : Blk)
+    (hx : hpath[P.length - 1]? = some b) (hid : b.id = head) (hne : P ≠ []) :
+    hpath.take P.length = P.take P.length := by
+  have h1 := isPath_prefix (isPath_of_path hH) (P.length - 1) b hx
+  rw [hid] at h1
+  have hlen : P.length - 1 + 1 = P.length := by
+    have : 0 < P.length := List.length_pos_iff.mpr hne
+    omega
+  rw [hlen] at h1
+  rw [List.take_length]
+  exact isPath_unique h1 hP
+
+/-- **Coinbase maturity at admission is the rule on the body chain — every node, every header
+chain.**  For a node whose body head has the valid path `g :: rest` (genesis at height 0,
+maturity > 0) and whose header head has any path at all: the repaired position-based check
+answers exactly the height-based specification on the body head's state, for every transaction. -/
+theorem pool_maturity_fixed_agrees (p : Params) (N n : Node) (hb : N.blks = n.blks) (g : Blk)
+    (rest : List Blk) (s : UState) (H : HeadPath p n g N.head rest s) (hg0 : g.h = 0)
+    (hm : 0 < p.maturity) (hpath : List Blk) (hH : N.path N.hhead = some hpath) (t : TxA) :
+    N.poolMaturityFixed p t = txMaturity p s t := by
+  refine pool_maturity_fixed_agrees_partial p N n hb g rest s H hg0 hm hpath hH t ?_
+  intro b hx hid
+  have hH' : n.path N.hhead = some hpath := by rw [← path_congr hb]; exact hH
+  have := header_chain_through_head (P := g :: rest) H.isPath hH' b (by simpa using hx) hid (by simp)
+  simpa using this
+
+/-- …after any history of blocks and headers in any order (`run`), from a fresh node -/
+theorem pool_maturity_fixed_after_any_history (p : Params) (n : Node) (es : List Event) (hf : Fresh n)
+    (hreg : Registered n es) (g : Blk) (hg : n.blk 0 = some g) (hg0 : g.h = 0) (hm : 0 < p.maturity)
+    (hpath : List Blk) (hH : (run p n es).path (run p n es).hhead = some hpath) :
+    ∃ s, (run p n es).stateAt p (run p n es).head = .ok s ∧
+      ∀ t, (run p n es).poolMaturityFixed p t = txMaturity p s t := by
+  obtain ⟨rest, s, H, hst⟩ := head_path_after_run p n es hf hreg g hg
+  have hdf := run_defs p n es
+  exact ⟨s, hst, fun t => pool_maturity_fixed_agrees p (run p n es) n hdf.1 g rest s H hg0 hm hpath hH t⟩
+
 /-- **The header chain on a competing fork** (the body head is not on the header chain: at the
 head's height the header MMR holds another block, or nothing): the pool-facing maturity check is
 the specification on the body head's state — for every header fork, with no side condition on its
@@ -115,15 +247,11 @@ theorem pool_maturity_fixed_body_only (p : Params) (N₁ N₂ n : Node) (hb₁ :
     (hb₂ : N₂.blks = n.blks) (hhd : N₁.head = N₂.head) (g : Blk) (rest : List Blk) (s : UState)
     (H : HeadPath p n g N₁.head rest s) (hg0 : g.h = 0) (hm : 0 < p.maturity)
     (hp₁ hp₂ : List Blk) (hH₁ : N₁.path N₁.hhead = some hp₁) (hH₂ : N₂.path N₂.hhead = some hp₂)
-    (t : TxA)
-    (ht₁ : ∀ b, hp₁[rest.length]? = some b → b.id = N₁.head →
-      hp₁.take (rest.length + 1) = (g :: rest).take (rest.length + 1))
-    (ht₂ : ∀ b, hp₂[rest.length]? = some b → b.id = N₂.head →
-      hp₂.take (rest.length + 1) = (g :: rest).take (rest.length + 1)) :
+    (t : TxA) :
     N₁.poolMaturityFixed p t = N₂.poolMaturityFixed p t := by
-  rw [pool_maturity_fixed_agrees_partial p N₁ n hb₁ g rest s H hg0 hm hp₁ hH₁ t ht₁]
+  rw [pool_maturity_fixed_agrees p N₁ n hb₁ g rest s H hg0 hm hp₁ hH₁ t]
   have H₂ : HeadPath p n g N₂.head rest s := hhd ▸ H
-  rw [pool_maturity_fixed_agrees_partial p N₂ n hb₂ g rest s H₂ hg0 hm hp₂ hH₂ t ht₂]
+  rw [pool_maturity_fixed_agrees p N₂ n hb₂ g rest s H₂ hg0 hm hp₂ hH₂ t]
 
 /-! ### witnesses: the nodes on which the unrepaired check deviated -/
 
